@@ -20,6 +20,12 @@ import (
 //   - "ack-future" / "clear-future": ack / clear stamped with a future
 //     session_seqno (same table): must not have any effect on the partner.
 //
+//   - "future-alone" / "ack-future-alone" / "clear-future-alone": the same future
+//     values submitted while the PARTNER of the session is not attached (never
+//     attached since the pair's relay state was created, attached and left, left
+//     and the own call replaced since): a message must end the call with an error
+//     in every attachment state; acks / clears must have no effect.
+//
 // (5) FRESH INCARNATIONS: a client restarts (same identity, message seqnos start
 // at 1 again) and opens its session again while its previous call is still
 // registered on the server ("reincarnate" = takeover) or after its old stream
@@ -134,6 +140,12 @@ func genC20BndProg(rng *rand.Rand) []c20op {
 				pre := o
 				pre.kind = "send"
 				prog = append(prog, pre)
+			}
+			// in half of the cases the partner is NOT attached (never / left / left and
+			// own call replaced: o.n bits 8-9), and the request is a message, an ack or
+			// a clear
+			if rng.IntN(2) == 0 {
+				o.kind = []string{"future-alone", "future-alone", "future-alone", "ack-future-alone", "clear-future-alone"}[rng.IntN(5)]
 			}
 			prog = append(prog, o)
 		case x < 76:
